@@ -14,44 +14,32 @@ Import ListNotations.
 Local Open Scope Z_scope.
 
 (* ---- keys and shapes ------------------------------------------------------------------- *)
-(* an address with every maximal digit run replaced by '#' *)
-Fixpoint shape_aux (in_run : bool) (s : list Z) : list Z :=
-  match s with
-  | [] => []
-  | c :: t => if isdigit c then (if in_run then shape_aux true t else 35 :: shape_aux true t)
-              else c :: shape_aux false t
-  end.
-Definition shape (s : list Z) : list Z := shape_aux false s.
+(* shape (NamesModel.v): a string with every maximal digit run replaced by '#';
+   key l = shape (rep0 l), rep0 = the name with each '#N' written as one digit *)
+Lemma rep0_cons s r :
+  rep0 (s :: r) = (match s with NameModel.Lit t => t | NameModel.Enum _ => [48] end) ++ rep0 r.
+Proof. reflexivity. Qed.
 
-Definition nodigits (s : list Z) : Prop := Forall (fun c => isdigit c = false) s.
+Lemma rep0_app a b : rep0 (a ++ b) = rep0 a ++ rep0 b.
+Proof. unfold rep0. rewrite map_app, concat_app. reflexivity. Qed.
 
-Lemma shape_aux_nodigit b s t : nodigits s -> shape_aux b (s ++ t) = s ++ shape_aux (if s then b else false) t.
+(* a non-empty digit string in front: one '#' (none inside a run), whatever the digits *)
+Lemma digits_shape d : digits d -> d <> [] -> forall b u,
+  shape_aux b (d ++ u) = (if b then [] else [35]) ++ shape_aux true u.
 Proof.
-  revert b. induction s as [|c s IH]; intros b H; [reflexivity|].
-  inversion H as [|? ? Hc Hs]; subst. cbn [app shape_aux]. rewrite Hc. rewrite (IH false Hs).
-  destruct s; reflexivity.
-Qed.
-
-Lemma shape_aux_head b t : starts_with_digit t = false -> shape_aux b t = shape_aux false t.
-Proof. destruct t as [|c t]; [reflexivity|]. cbn. intros ->. reflexivity. Qed.
-
-Lemma shape_aux_digits x : forall t, digits x -> x <> [] -> starts_with_digit t = false ->
-  shape_aux false (x ++ t) = 35 :: shape_aux false t.
-Proof.
-  assert (G : forall x t, digits x -> starts_with_digit t = false -> shape_aux true (x ++ t) = shape_aux false t).
-  { induction x0 as [|c x0 IH]; intros t Hd Ht; [apply shape_aux_head; exact Ht|].
+  assert (G : forall d u, digits d -> shape_aux true (d ++ u) = shape_aux true u).
+  { induction d0 as [|c d0 IH]; intros u Hd; [reflexivity|].
     inversion Hd as [|? ? Hc Hx]; subst. cbn [app shape_aux]. rewrite Hc. apply IH; assumption. }
-  intros t Hd Hne Ht. destruct x as [|c x]; [congruence|]. inversion Hd as [|? ? Hc Hx]; subst.
-  cbn [app shape_aux]. rewrite Hc. f_equal. apply G; assumption.
+  intros Hd Hne b u. destruct d as [|c d]; [congruence|]. inversion Hd as [|? ? Hc Hx]; subst.
+  cbn [app shape_aux]. rewrite Hc. destruct b; cbn [app]; [|f_equal]; apply G; assumption.
 Qed.
 
-(* literal text without digits, no two enumerations adjacent *)
-Fixpoint segs_plain (l : list NameModel.seg) : Prop :=
-  match l with
-  | [] => True
-  | NameModel.Lit s :: r => s <> [] /\ nodigits s /\ segs_plain r
-  | NameModel.Enum _ :: r => match r with NameModel.Enum _ :: _ => False | _ => True end /\ segs_plain r
-  end.
+Lemma shape_aux_common s : forall b u v,
+  (forall b', shape_aux b' u = shape_aux b' v) -> shape_aux b (s ++ u) = shape_aux b (s ++ v).
+Proof.
+  induction s as [|c s IH]; intros b u v H; [apply H|].
+  cbn [app shape_aux]. destruct (isdigit c); [destruct b|]; rewrite (IH _ u v H); reflexivity.
+Qed.
 
 Lemma spells_nil_inv z : spells [] z -> z = [].
 Proof. intros H. inversion H. reflexivity. Qed.
@@ -68,36 +56,20 @@ Proof.
   exists x, y. repeat split; assumption.
 Qed.
 
-Lemma plain_next_nondigit r y t :
-  segs_plain r -> match r with NameModel.Enum _ :: _ => False | _ => True end ->
-  spells (map conv r) y -> starts_with_digit t = false -> starts_with_digit (y ++ t) = false.
+(* whatever spells a name has, digit runs collapsed, the shape of the name's rep0:
+   literal text is copied, an index and the digit standing for '#N' both give one
+   '#' (or vanish inside a digit run of the surrounding literal text) *)
+Lemma spells_shape l : forall x t, spells (map conv l) x ->
+  forall b, shape_aux b (x ++ t) = shape_aux b (rep0 l ++ t).
 Proof.
-  intros Hp Hne Hs Ht. destruct r as [|[s|n] r]; [| |contradiction].
-  - apply spells_nil_inv in Hs. subst. exact Ht.
-  - cbn [map conv] in Hs. apply spells_lit_inv in Hs. destruct Hs as [y' [-> _]].
-    destruct Hp as [Hne' [Hd _]]. destruct s as [|c s]; [congruence|]. inversion Hd; subst.
-    cbn. assumption.
-Qed.
-
-(* whatever spells a plain name has the name's key as its shape *)
-Lemma spells_shape l : forall x t b,
-  segs_plain l -> (b = true -> match l with NameModel.Enum _ :: _ => False | _ => True end) ->
-  spells (map conv l) x -> starts_with_digit t = false ->
-  shape_aux b (x ++ t) = key l ++ shape_aux false t.
-Proof.
-  induction l as [|[s|n] l IH]; intros x t b Hp Hb Hs Ht.
-  - apply spells_nil_inv in Hs. subst. cbn [app key map concat]. apply shape_aux_head. exact Ht.
+  induction l as [|[s|n] l IH]; intros x t Hs b.
+  - apply spells_nil_inv in Hs. subst. reflexivity.
   - cbn [map conv] in Hs. apply spells_lit_inv in Hs. destruct Hs as [y [-> Hy]].
-    destruct Hp as [Hne [Hd Hr]]. rewrite <- app_assoc. rewrite (shape_aux_nodigit b s _ Hd).
-    destruct s as [|c s]; [congruence|].
-    rewrite (IH y t false Hr ltac:(discriminate) Hy Ht).
-    unfold key. cbn [map concat]. rewrite <- app_assoc. reflexivity.
+    rewrite rep0_cons, <- !app_assoc. apply shape_aux_common. intros b'. apply IH. exact Hy.
   - cbn [map conv] in Hs. apply spells_enum_inv in Hs. destruct Hs as [x1 [y [-> [Hne [Hdg Hy]]]]].
-    destruct Hp as [Hnx Hr]. rewrite <- app_assoc.
-    assert (b = false) by (destruct b; [exfalso; apply (Hb eq_refl) | reflexivity]). subst b.
-    assert (Hyt : starts_with_digit (y ++ t) = false) by (eapply plain_next_nondigit; eassumption).
-    rewrite (shape_aux_digits x1 (y ++ t) Hdg Hne Hyt).
-    rewrite (IH y t false Hr ltac:(discriminate) Hy Ht). reflexivity.
+    rewrite rep0_cons, <- !app_assoc.
+    rewrite (digits_shape x1 Hdg Hne), (digits_shape [48]); [|constructor; [reflexivity | constructor] | discriminate].
+    f_equal. apply IH. exact Hy.
 Qed.
 
 (* shaping preserves "is a prefix of" *)
@@ -109,29 +81,18 @@ Proof.
   - split; [reflexivity | apply IH].
 Qed.
 
-(* an address without digits spells only names without enumerations, and then
-   it is the name's text itself *)
-Lemma spells_nodigits l : forall x, spells (map conv l) x -> nodigits x ->
-  x = key l /\ Forall (fun s => match s with NameModel.Lit _ => True | _ => False end) l.
-Proof.
-  induction l as [|[s|n] l IH]; intros x Hs Hn.
-  - apply spells_nil_inv in Hs. subst. split; [reflexivity | constructor].
-  - cbn [map conv] in Hs. apply spells_lit_inv in Hs. destruct Hs as [y [-> Hy]].
-    apply Forall_app in Hn. destruct Hn as [_ Hy']. destruct (IH y Hy Hy') as [-> Hl].
-    split; [reflexivity | constructor; [exact I | exact Hl]].
-  - exfalso. cbn [map conv] in Hs. apply spells_enum_inv in Hs. destruct Hs as [x1 [y [-> [Hne [Hdg _]]]]].
-    destruct x1 as [|c x1]; [congruence|]. inversion Hdg; subst. inversion Hn; subst. congruence.
-Qed.
+Lemma shape_prefix' a b : prefix a b -> prefix (shape a) (shape b).
+Proof. intros H. apply prefix_app in H. destruct H as [t ->]. apply shape_prefix. Qed.
 
 (* ---- one port: what a match tells about the address ------------------------------------ *)
 (* the name conditions used below, per port *)
 Definition pok (q : sport) : Prop :=
   match q with
   | SPort sg a _ None =>
-      dsegs_wf sg /\ segs_plain sg /\ last_not_slash (map conv sg) /\
+      dsegs_wf sg /\ last_not_slash (map conv sg) /\
       exists tys, a = render_types tys /\ types_ok tys
   | SPort sg a _ (Some _) =>
-      a = [] /\ exists cs, sg = comps_segs cs /\ cs <> [] /\ Forall dcomp cs /\ Forall (fun c => nodigits (fst c)) cs
+      a = [] /\ exists cs, sg = comps_segs cs /\ cs <> [] /\ Forall dcomp cs
   end.
 
 Lemma spells_chars (P : Z -> Prop) l :
@@ -150,57 +111,25 @@ Definition no35 (c : Z) : Prop := c <> 35.
 Lemma dchar_no35 c : dchar c -> no35 c. Proof. unfold dchar, no35. lia. Qed.
 Lemma digit_no35 c : isdigit c = true -> no35 c. Proof. intros H. apply isdigit_range in H. unfold no35. lia. Qed.
 
-Lemma comp_conv_plain c : nodigits (fst c) -> fst c <> [] -> segs_plain (comp_conv c).
-Proof. destruct c as [t [n|]]; cbn [fst comp_conv segs_plain]; intros; repeat split; auto. Qed.
-
-Lemma comp_key c : key (comps_segs [c]) = key (comp_conv c) ++ [47].
-Proof.
-  destruct c as [t [n|]]; unfold key; cbn [comps_segs flat_map comp_segs app comp_conv map concat];
-    rewrite ?app_nil_r, <- ?app_assoc; reflexivity.
-Qed.
-
-Lemma key_app a b : key (a ++ b) = key a ++ key b.
-Proof. unfold key. rewrite map_app, concat_app. reflexivity. Qed.
-
-Lemma comps_key cs : cs <> [] -> key (comps_segs cs) = key (comps_conv cs) ++ [47].
+Lemma comps_rep0 cs : cs <> [] -> rep0 (comps_segs cs) = rep0 (comps_conv cs) ++ [47].
 Proof.
   induction cs as [|c r IH]; intros Hne; [congruence|].
-  rewrite comps_segs_cons, key_app, <- (comps_segs_one c), comp_key.
-  destruct r as [|c' r']; cbn [comps_conv].
-  - cbn [comps_segs flat_map]. unfold key at 2. cbn [map concat]. rewrite !app_nil_r. reflexivity.
-  - rewrite IH by discriminate. rewrite key_app. unfold key at 4. cbn [map concat]. fold (key (comps_conv (c' :: r'))).
-    rewrite <- !app_assoc. reflexivity.
+  rewrite comps_segs_cons, rep0_app.
+  assert (H1 : rep0 (comp_segs c) = rep0 (comp_conv c) ++ [47]).
+  { destruct c as [t [n|]]; unfold rep0; cbn [comp_segs comp_conv map concat]; rewrite ?app_nil_r, <- ?app_assoc; reflexivity. }
+  rewrite H1. destruct r as [|c' r']; cbn [comps_conv].
+  - cbn [comps_segs flat_map]. unfold rep0 at 2. cbn [map concat]. rewrite !app_nil_r. reflexivity.
+  - rewrite IH by discriminate. rewrite rep0_app, rep0_cons. rewrite <- !app_assoc. reflexivity.
 Qed.
 
-Lemma comps_conv_plain cs : Forall dcomp cs -> Forall (fun c => nodigits (fst c)) cs -> segs_plain (comps_conv cs).
-Proof.
-  induction cs as [|c r IH]; intros Hc Hn; [exact I|].
-  inversion Hc as [|? ? Hc1 Hcr]; subst. inversion Hn as [|? ? Hn1 Hnr]; subst. specialize (IH Hcr Hnr).
-  destruct Hc1 as [Hne _]. assert (H47 : nodigits [47]) by (constructor; [reflexivity | constructor]).
-  destruct c as [t [n|]]; destruct r as [|c' r']; cbn [comps_conv comp_conv app fst segs_plain] in *;
-    repeat split; auto; discriminate.
-Qed.
-
-Lemma comps_segs_plain cs : Forall dcomp cs -> Forall (fun c => nodigits (fst c)) cs -> segs_plain (comps_segs cs).
-Proof.
-  induction cs as [|c r IH]; intros Hc Hn; [exact I|].
-  inversion Hc as [|? ? Hc1 Hcr]; subst. inversion Hn as [|? ? Hn1 Hnr]; subst. specialize (IH Hcr Hnr).
-  destruct Hc1 as [Hne _]. assert (H47 : nodigits [47]) by (constructor; [reflexivity | constructor]).
-  rewrite comps_segs_cons.
-  destruct c as [t [n|]]; cbn [comp_segs app fst segs_plain] in *.
-  - repeat split; auto; discriminate.
-  - repeat split; auto; [intros E; apply app_eq_nil in E; destruct E; discriminate | apply Forall_app; split; assumption].
-Qed.
-
-(* a matching port: the shaped address begins with the port's key; and the
-   address begins with a '#'-free text that IS the key if it has no digits *)
+(* a matching port: the address begins with a '#'-free text whose shape is the
+   port's key *)
 Lemma match_shape q m r pe :
   pok q -> addr_ok m -> match_path (sname q) m = MRet r pe ->
-  (exists u, shape m = skey q ++ u) /\
-  (exists m', prefix m' m /\ Forall no35 m' /\ (nodigits m' -> m' = skey q)).
+  exists m', prefix m' m /\ Forall no35 m' /\ shape m' = skey q.
 Proof.
   intros Hq Haddr Hm. destruct q as [sg a mt [l|]]; cbn [pok sname skey] in *.
-  - destruct Hq as [-> [cs [-> [Hcs [Hc Hnd]]]]].
+  - destruct Hq as [-> [cs [-> [Hcs Hc]]]].
     pose proof (comps_conv_wf cs Hc) as Hw.
     set (p := {| segs := map conv (comps_conv cs); subtree := true; types := None |}).
     assert (Hr : render_name (comps_segs cs) [] = PatSpec.render p).
@@ -212,16 +141,11 @@ Proof.
         [apply conv_seg_ok; exact Hw | apply conv_enum_sep; exact Hw | intros E; discriminate]. }
     destruct (path_sound p m r pe Hwf Haddr Hm) as [_ Hsp].
     unfold path_spec, p in Hsp. cbn [subtree segs] in Hsp. destruct Hsp as [x [Hx ->]].
-    pose proof (comps_conv_plain cs Hc Hnd) as Hpl.
-    split.
-    + exists (shape pe). unfold shape. rewrite (spells_shape _ x (47 :: pe) false Hpl ltac:(discriminate) Hx eq_refl).
-      rewrite (comps_key cs Hcs), <- app_assoc. reflexivity.
-    + exists (x ++ [47]). split; [|split].
-      * apply prefix_app. exists pe. rewrite <- app_assoc. reflexivity.
-      * apply Forall_app. split; [apply (spells_chars no35 _ dchar_no35 digit_no35 Hw x Hx) | constructor; [unfold no35; lia | constructor]].
-      * intros Hn. apply Forall_app in Hn. destruct Hn as [Hn _].
-        destruct (spells_nodigits _ x Hx Hn) as [-> _]. rewrite (comps_key cs Hcs). reflexivity.
-  - destruct Hq as [Hw [Hpl [Hls [tys [-> Ht]]]]].
+    exists (x ++ [47]). split; [|split].
+    + apply prefix_app. exists pe. rewrite <- app_assoc. reflexivity.
+    + apply Forall_app. split; [apply (spells_chars no35 _ dchar_no35 digit_no35 Hw x Hx) | constructor; [unfold no35; lia | constructor]].
+    + unfold key, shape. rewrite (comps_rep0 cs Hcs). apply spells_shape. exact Hx.
+  - destruct Hq as [Hw [Hls [tys [-> Ht]]]].
     set (p := {| segs := map conv sg; subtree := false; types := tys |}).
     assert (Hr : render_name sg (render_types tys) = PatSpec.render p).
     { unfold PatSpec.render, render_tail, p, render_name. fold (flatten sg).
@@ -232,29 +156,20 @@ Proof.
         [apply conv_seg_ok; exact Hw | apply conv_enum_sep; exact Hw | intros _; exact Hls | exact Ht]. }
     destruct (path_sound p m r pe Hwf Haddr Hm) as [_ Hsp].
     unfold path_spec, p in Hsp. cbn [subtree segs] in Hsp. destruct Hsp as [Hx ->].
-    split.
-    + exists []. unfold shape. rewrite <- (app_nil_r m) at 1.
-      rewrite (spells_shape _ m [] false Hpl ltac:(discriminate) Hx eq_refl). reflexivity.
-    + exists m. split; [apply prefix_refl | split].
-      * apply (spells_chars no35 _ dchar_no35 digit_no35 Hw m Hx).
-      * intros Hn. apply (spells_nodigits _ m Hx Hn).
+    exists m. split; [apply prefix_refl | split].
+    + apply (spells_chars no35 _ dchar_no35 digit_no35 Hw m Hx).
+    + unfold key, shape. pose proof (spells_shape sg m [] Hx false) as E. rewrite !app_nil_r in E. exact E.
 Qed.
 
 (* ---- the raw name: its leading literal text --------------------------------------------- *)
 Fixpoint lead (l : list NameModel.seg) : list Z :=
   match l with NameModel.Lit s :: r => s ++ lead r | _ => [] end.
 
-Lemma lead_key l : prefix (lead l) (key l).
+Lemma lead_rep0 l : prefix (lead l) (rep0 l).
 Proof.
   induction l as [|[s|n] l IH]; [exact I| |exact I].
-  cbn [lead]. unfold key. cbn [map concat]. fold (key l). apply prefix_app.
+  cbn [lead]. rewrite rep0_cons. apply prefix_app.
   apply prefix_app in IH. destruct IH as [r ->]. exists r. rewrite app_assoc. reflexivity.
-Qed.
-
-Lemma lead_nodigits l : segs_plain l -> nodigits (lead l).
-Proof.
-  induction l as [|[s|n] l IH]; intros H; [constructor| |constructor].
-  destruct H as [_ [Hd Hr]]. cbn [lead]. apply Forall_app. split; [exact Hd | apply IH; exact Hr].
 Qed.
 
 (* the raw name is its leading literal text, followed by nothing, a '#' or a ':' *)
@@ -289,7 +204,6 @@ Proof.
 Qed.
 
 Definition pargs_ok (q : sport) : Prop := match q with SPort _ a _ _ => a = [] \/ hd0 a = 58 end.
-Definition pplain (q : sport) : Prop := match q with SPort sg _ _ _ => segs_plain sg end.
 
 (* ---- two siblings answering one path have prefix-related keys ---------------------------- *)
 Lemma two_matches q q' m r pe r' pe' :
@@ -298,19 +212,19 @@ Lemma two_matches q q' m r pe r' pe' :
   prefix (skey q) (skey q') \/ prefix (skey q') (skey q).
 Proof.
   intros Hq Hq' Ha Hm Hm'.
-  destruct (match_shape q m r pe Hq Ha Hm) as [[u Hu] _].
-  destruct (match_shape q' m r' pe' Hq' Ha Hm') as [[u' Hu'] _].
-  apply (prefix_comparable _ _ (shape m)); apply prefix_app; eauto.
+  destruct (match_shape q m r pe Hq Ha Hm) as [m1 [P1 [_ E1]]].
+  destruct (match_shape q' m r' pe' Hq' Ha Hm') as [m2 [P2 [_ E2]]].
+  rewrite <- E1, <- E2. apply (prefix_comparable _ _ (shape m)); apply shape_prefix'; assumption.
 Qed.
 
 Lemma match_and_rawprefix q q' m r pe :
-  pok q -> pplain q' -> pargs_ok q' -> addr_ok m ->
+  pok q -> pargs_ok q' -> addr_ok m ->
   match_path (sname q) m = MRet r pe -> NameModel.prefixb m (sname q') = true ->
   prefix (skey q) (skey q').
 Proof.
-  intros Hq Hpl Hargs Ha Hm Hp.
-  destruct (match_shape q m r pe Hq Ha Hm) as [_ [m' [Hm' [H35 Hk]]]].
-  destruct q' as [sg' a' mt' s']. cbn [sname skey pplain pargs_ok] in *.
+  intros Hq Hargs Ha Hm Hp.
+  destruct (match_shape q m r pe Hq Ha Hm) as [m' [Hm' [H35 Hk]]].
+  destruct q' as [sg' a' mt' s']. cbn [sname skey pargs_ok] in *.
   unfold render_name in Hp. fold (flatten sg') in Hp.
   destruct (raw_lead sg' a' Hargs) as [rest [E Hrest]]. rewrite E in Hp.
   assert (Hpm : prefix m (lead sg' ++ rest)).
@@ -321,8 +235,7 @@ Proof.
     destruct Hrest as [->|[Hr|Hr]]; [left; reflexivity | |]; right; rewrite Hr; intros Hin.
     - rewrite Forall_forall in H35. apply (H35 35 Hin). reflexivity.
     - pose proof (prefix_forall m' m Hm' Ha) as Ha'. rewrite Forall_forall in Ha'. destruct (Ha' 58 Hin) as [_ Hc]. apply Hc. reflexivity. }
-  rewrite <- (Hk (prefix_forall m' (lead sg') Hm'l (lead_nodigits sg' Hpl))).
-  eapply prefix_trans'; [exact Hm'l | apply lead_key].
+  rewrite <- Hk. unfold key. apply shape_prefix'. eapply prefix_trans'; [exact Hm'l | apply lead_rep0].
 Qed.
 
 (* ---- the tables -------------------------------------------------------------------------- *)
@@ -330,11 +243,11 @@ Qed.
 Definition keys_free (l : list sport) : Prop :=
   forall i j q q', nth_error l i = Some q -> nth_error l j = Some q' -> prefix (skey q) (skey q') -> i = j.
 
-Lemma pok_plain q : pok q -> pplain q /\ pargs_ok q.
+Lemma pok_args q : pok q -> pargs_ok q.
 Proof.
-  destruct q as [sg a mt [l|]]; cbn [pok pplain pargs_ok].
-  - intros [-> [cs [-> [_ [Hc Hnd]]]]]. split; [|left; reflexivity]. apply comps_segs_plain; assumption.
-  - intros [_ [Hpl [_ [tys [-> Ht]]]]]. split; [exact Hpl|].
+  destruct q as [sg a mt [l|]]; cbn [pok pargs_ok].
+  - intros [-> _]. left; reflexivity.
+  - intros [_ [_ [tys [-> Ht]]]].
     destruct (render_types_shape tys Ht) as [->|[X ->]]; [left; reflexivity | right; reflexivity].
 Qed.
 
@@ -357,50 +270,45 @@ Proof.
   - destruct (two_matches q q' m r pe r' pe' Hq Hq' Ha Hm Hm') as [H|H].
     + exact (Hk j j' q q' E E' H).
     + symmetry. exact (Hk j' j q' q E' E H).
-  - destruct (pok_plain q' Hq') as [Hpl Hargs].
-    exact (Hk j j' q q' E E' (match_and_rawprefix q q' m r pe Hq Hpl Hargs Ha Hm Hp)).
+  - exact (Hk j j' q q' E E' (match_and_rawprefix q q' m r pe Hq (pok_args q' Hq') Ha Hm Hp)).
 Qed.
 
 (* ======================================================================== *)
 (* the decidable predicate                                                   *)
 (* ======================================================================== *)
 (* ---- reflection ---------------------------------------------------------------------------- *)
-Lemma litcharb_ok c : litcharb c = true -> dchar c /\ isdigit c = false.
+Lemma litcharb_ok c : litcharb c = true -> dchar c.
 Proof.
   unfold litcharb, dchar. rewrite !andb_true_iff, !negb_true_iff, !orb_false_iff.
-  intros [[[H0 H1] [[[A B] C] D]] E]. apply Z.ltb_lt in H0. apply Z.ltb_lt in H1.
+  intros [[H0 H1] [[[A B] C] D]]. apply Z.ltb_lt in H0. apply Z.ltb_lt in H1.
   apply Z.eqb_neq in A. apply Z.eqb_neq in B. apply Z.eqb_neq in C. apply Z.eqb_neq in D.
   repeat split; assumption.
 Qed.
 
 Lemma text_chars t : forallb litcharb t = true ->
-  Forall dchar t /\ nodigits t /\ has_char 35 t = false /\ has_char 58 t = false.
+  Forall dchar t /\ has_char 35 t = false /\ has_char 58 t = false.
 Proof.
   induction t as [|c t IH]; intros H; [repeat split; constructor|].
   cbn [forallb] in H. apply andb_true_iff in H. destruct H as [Hc Ht].
-  destruct (litcharb_ok c Hc) as [Hd Hn]. destruct (IH Ht) as [A [B [C D]]].
+  pose proof (litcharb_ok c Hc) as Hd. destruct (IH Ht) as [A [C D]].
   repeat split; try (constructor; assumption); cbn [has_char]; unfold dchar in Hd.
   - rewrite C. replace (c =? 35) with false by (symmetry; apply Z.eqb_neq; lia). reflexivity.
   - rewrite D. replace (c =? 58) with false by (symmetry; apply Z.eqb_neq; lia). reflexivity.
 Qed.
 
-Lemma nodigits_start s : s <> [] -> nodigits s -> starts_with_digit s = false.
-Proof. destruct s as [|c s]; [congruence|]. intros _ H. inversion H; subst. assumption. Qed.
-
-Lemma segs_okb_ok l : segs_okb l = true -> dsegs_wf l /\ segs_plain l /\ segs_wf l.
+Lemma segs_okb_ok l : segs_okb l = true -> dsegs_wf l /\ segs_wf l.
 Proof.
   induction l as [|[s|n] l IH]; intros H; [repeat split|cbn [segs_okb] in H|cbn [segs_okb] in H].
   - apply andb_true_iff in H. destruct H as [H Hr]. apply andb_true_iff in H. destruct H as [Hne Hs].
-    destruct (IH Hr) as [A [B C]]. destruct (text_chars s Hs) as [Hd [Hn [H35 H58]]].
+    destruct (IH Hr) as [A C]. destruct (text_chars s Hs) as [Hd [H35 H58]].
     assert (Hne' : s <> []) by (destruct s; [discriminate | discriminate]).
-    cbn [dsegs_wf segs_plain segs_wf]. repeat split; assumption.
+    cbn [dsegs_wf segs_wf]. repeat split; assumption.
   - apply andb_true_iff in H. destruct H as [H Hr]. apply andb_true_iff in H. destruct H as [H Hnx].
     apply andb_true_iff in H. destruct H as [H0 H1]. apply Z.leb_le in H0. apply Z.ltb_lt in H1.
-    destruct (IH Hr) as [A [B C]].
-    cbn [dsegs_wf segs_plain segs_wf]. repeat split; try assumption; try lia;
-      destruct l as [|[s|n'] l]; try exact I; try discriminate.
-    + destruct B as [Hne [Hn _]]. apply nodigits_start; assumption.
-    + destruct B as [Hne [Hn _]]. apply nodigits_start; assumption.
+    destruct (IH Hr) as [A C].
+    cbn [dsegs_wf segs_wf]. repeat split; try assumption; try lia;
+      destruct l as [|[s|n'] l]; try exact I; try discriminate;
+      apply negb_true_iff in Hnx; exact Hnx.
 Qed.
 
 (* ':'t1':'t2... : every ':'-led NUL-free string is a rendered type list *)
@@ -461,14 +369,14 @@ Proof.
 Qed.
 
 Lemma text_okb_ok t0 : text_okb t0 = true ->
-  t0 <> [] /\ Forall dchar t0 /\ nodigits t0 /\ has_char 35 t0 = false /\ has_char 58 t0 = false /\ ~ In 47 t0.
+  t0 <> [] /\ Forall dchar t0 /\ has_char 35 t0 = false /\ has_char 58 t0 = false /\ ~ In 47 t0.
 Proof.
   unfold text_okb. intros H. apply andb_true_iff in H. destruct H as [H H47]. apply andb_true_iff in H.
-  destruct H as [Hne Hc]. destruct (text_chars t0 Hc) as [A [B [C D]]].
+  destruct H as [Hne Hc]. destruct (text_chars t0 Hc) as [A [C D]].
   apply negb_true_iff in H47. repeat split; try assumption; [destruct t0; discriminate | apply has_char_in; exact H47].
 Qed.
 
-Definition comp_good (c : comp) : Prop := dcomp c /\ nodigits (fst c) /\ comp_wf c.
+Definition comp_good (c : comp) : Prop := dcomp c /\ comp_wf c.
 
 Lemma comps_okb_ok : forall k sg, (length sg <= k)%nat -> comps_okb sg = true ->
   exists cs, sg = comps_segs cs /\ Forall comp_good cs.
@@ -480,7 +388,7 @@ Proof.
     assert (Hplain : (last t 0 =? 47) && text_okb (removelast t) && comps_okb r = true ->
                      exists cs, NameModel.Lit t :: r = comps_segs cs /\ Forall comp_good cs).
     { intros H'. apply andb_true_iff in H'. destruct H' as [H' Hr]. apply andb_true_iff in H'. destruct H' as [Hl Ht].
-      apply Z.eqb_eq in Hl. destruct (text_okb_ok _ Ht) as [Hne [Hd [Hn [H35 [H58 H47]]]]].
+      apply Z.eqb_eq in Hl. destruct (text_okb_ok _ Ht) as [Hne [Hd [H35 [H58 H47]]]].
       assert (Htne : t <> []) by (intros ->; cbn in Hne; congruence).
       destruct (IH r ltac:(lia) Hr) as [cs [-> Hcs]].
       exists ((removelast t, None) :: cs). split.
@@ -494,7 +402,7 @@ Proof.
       apply andb_true_iff in H. destruct H as [H Hr]. apply andb_true_iff in H. destruct H as [H H1].
       apply andb_true_iff in H. destruct H as [H H0]. apply andb_true_iff in H. destruct H as [Hc Ht].
       apply Z.eqb_eq in Hc. subst c. apply Z.leb_le in H0. apply Z.ltb_lt in H1.
-      destruct (text_okb_ok _ Ht) as [Hne [Hd [Hn [H35 [H58 H47]]]]].
+      destruct (text_okb_ok _ Ht) as [Hne [Hd [H35 [H58 H47]]]].
       cbn [length] in Hlen. destruct (IH r3 ltac:(lia) Hr) as [cs [-> Hcs]].
       exists ((t, Some n2) :: cs). split; [reflexivity|].
       constructor; [|exact Hcs]. unfold comp_good, dcomp, comp_wf. cbn [fst snd]. repeat split; try assumption; lia.
@@ -547,8 +455,7 @@ Proof.
   - apply andb_true_iff in H. destruct H as [H Hall]. apply andb_true_iff in H. destruct H as [Hsub Htab].
     destruct (sub_okb_ok sg a Hsub) as [-> [cs [-> [Hcs Hgood]]]].
     assert (Hc : Forall dcomp cs) by (eapply Forall_impl; [|exact Hgood]; intros ? [? _]; assumption).
-    assert (Hnd : Forall (fun c => nodigits (fst c)) cs) by (eapply Forall_impl; [|exact Hgood]; intros ? [_ [? _]]; assumption).
-    assert (Hcw : Forall comp_wf cs) by (eapply Forall_impl; [|exact Hgood]; intros ? [_ [_ ?]]; assumption).
+    assert (Hcw : Forall comp_wf cs) by (eapply Forall_impl; [|exact Hgood]; intros ? [_ ?]; assumption).
     apply okb_all_forall in Hall. rewrite forallb_forall in Hall.
     assert (HF : Forall (fun q => pok q /\ sport_wf q /\ dok q /\ lok q) l).
     { rewrite Forall_forall in *. intros q Hq. apply IHs; [exact Hq | apply Hall; exact Hq]. }
@@ -565,7 +472,7 @@ Proof.
       apply forall_all. eapply Forall_impl; [|exact HF]; cbv beta; intros ? [? [? [? ?]]]; assumption.
   - unfold leaf_okb in H. apply andb_true_iff in H. destruct H as [H Ha]. apply andb_true_iff in H. destruct H as [H Hl].
     apply andb_true_iff in H. destruct H as [Hs Hf].
-    destruct (segs_okb_ok sg Hs) as [Hd [Hp Hw]]. destruct (argsb_ok a Ha) as [Haw Hty].
+    destruct (segs_okb_ok sg Hs) as [Hd Hw]. destruct (argsb_ok a Ha) as [Haw Hty].
     assert (Hne : sg <> []) by (destruct sg; [discriminate | discriminate]).
     pose proof (last_not_slashb_ok sg Hne Hl) as Hls.
     split; [|split; [|split]].
@@ -593,6 +500,85 @@ Proof.
   apply keys_lookup_disjoint; assumption.
 Qed.
 
+(* ---- every leaf the walk reports admits some type string ------------------------------------ *)
+(* (apropos does not look at types: C18_lookup needs no hypothesis about them) *)
+Fixpoint adm (p : sport) : Prop :=
+  match p with
+  | SPort _ a _ None => exists ty, admits a ty
+  | SPort _ _ _ (Some l) =>
+      (fix all (l : list sport) : Prop := match l with [] => True | x :: r => adm x /\ all r end) l
+  end.
+
+Lemma adm_all l :
+  (fix all (l : list sport) : Prop := match l with [] => True | x :: r => adm x /\ all r end) l -> Forall adm l.
+Proof. induction l as [|x r IH]; intros H; [constructor|]. destruct H. constructor; auto. Qed.
+
+Lemma argsb_admits a : argsb a = true -> exists ty, admits a ty.
+Proof.
+  intros H. destruct (argsb_ok a H) as [_ [tys [-> Ht]]]. destruct tys as [l|].
+  - pose proof Ht as Ht0. destruct Ht as [Hne Hall]. destruct l as [|t l]; [congruence|]. exists t. exists (Some (t :: l)).
+    split; [reflexivity|]. split; [exact Ht0|]. split; [|left; reflexivity].
+    inversion Hall as [|? ? Ht1 _]; subst. eapply Forall_impl; [|exact Ht1]. intros c [Hc _]. exact Hc.
+  - exists []. exists None. split; [reflexivity|]. split; [exact I|]. split; [constructor | exact I].
+Qed.
+
+Lemma port_okb_adm p : port_okb p = true -> adm p.
+Proof.
+  induction p as [sg a mt s IHs] using sport_ind2. intros H. destruct s as [l|]; cbn [port_okb adm] in *.
+  - apply andb_true_iff in H. destruct H as [_ Hall]. apply okb_all_forall in Hall. rewrite forallb_forall in Hall.
+    apply forall_all. rewrite Forall_forall in *. intros q Hq. apply IHs; [exact Hq | apply Hall; exact Hq].
+  - unfold leaf_okb in H. apply andb_true_iff in H. destruct H as [_ Ha]. apply argsb_admits. exact Ha.
+Qed.
+
+Lemma spec_port_admits q : forall ids pre id a,
+  adm q -> In (id, a) (spec_addrs_port ids pre q) ->
+  exists rest ty, id = ids ++ rest /\
+    match q with
+    | SPort _ args _ None => admits args ty
+    | SPort _ _ _ (Some l') => leaf_admits l' rest ty
+    end.
+Proof.
+  induction q as [sg args m s IHs] using sport_ind2. intros ids pre id a Hadm H.
+  destruct s as [l'|].
+  - rewrite spec_addrs_subtree in H. apply in_flat_map in H. destruct H as [x [_ H]].
+    cbn [adm] in Hadm. apply adm_all in Hadm.
+    assert (Htab : forall l i, Forall (fun q => forall ids pre id a,
+               adm q -> In (id, a) (spec_addrs_port ids pre q) ->
+               exists rest ty, id = ids ++ rest /\
+                 match q with
+                 | SPort _ args _ None => admits args ty
+                 | SPort _ _ _ (Some l') => leaf_admits l' rest ty
+                 end) l -> Forall adm l ->
+             In (id, a) (spec_table ids (pre ++ x) l i) ->
+             exists j q rest ty, nth_error l j = Some q /\ id = ids ++ (i + j)%nat :: rest /\
+               match q with
+               | SPort _ args _ None => admits args ty
+               | SPort _ _ _ (Some l') => leaf_admits l' rest ty
+               end).
+    { induction l as [|q r IHr]; intros i HF HA Hin; [contradiction|].
+      inversion HF as [|? ? Hq Hr]; subst. inversion HA as [|? ? Aq Ar]; subst.
+      cbn [spec_table] in Hin. apply in_app_or in Hin. destruct Hin as [Hin|Hin].
+      - destruct (Hq _ _ _ _ Aq Hin) as [rest [ty [-> Hre]]].
+        exists O, q, rest, ty. split; [reflexivity|]. split; [rewrite <- app_assoc, Nat.add_0_r; reflexivity | exact Hre].
+      - destruct (IHr (S i) Hr Ar Hin) as [j [q' [rest [ty [En [-> Hre]]]]]].
+        exists (S j), q', rest, ty. split; [exact En|]. split; [f_equal; f_equal; lia | exact Hre]. }
+    destruct (Htab l' O IHs Hadm H) as [j [q [rest [ty [En [-> Hre]]]]]].
+    exists (j :: rest), ty. split; [reflexivity|]. cbn [leaf_admits]. rewrite En.
+    destruct q as [sg' args' m' [l''|]]; exact Hre.
+  - cbn [spec_addrs_port] in H. apply in_map_iff in H. destruct H as [x [Heq Hx]]. inversion Heq; subst.
+    cbn [adm] in Hadm. destruct Hadm as [ty Hty]. exists [], ty. split; [rewrite app_nil_r; reflexivity | exact Hty].
+Qed.
+
+Lemma names_ok_leaf_admits root id a :
+  names_ok root = true -> In (id, a) (spec_addrs root) -> exists ty, leaf_admits root id ty.
+Proof.
+  unfold names_ok. intros H Hin. apply andb_true_iff in H. destruct H as [_ Hall]. rewrite forallb_forall in Hall.
+  assert (Hadm : adm (SPort [] [] None (Some root))).
+  { cbn [adm]. apply forall_all. rewrite Forall_forall. intros q Hq. apply port_okb_adm. apply Hall. exact Hq. }
+  unfold spec_addrs in Hin.
+  destruct (spec_port_admits _ _ _ _ _ Hadm Hin) as [rest [ty [-> Hre]]]. exists ty. exact Hre.
+Qed.
+
 (* ---- the theorems with the decidable hypothesis --------------------------------------------- *)
 Theorem walk_dispatchable_names hp tid root id a ty o :
   names_ok root = true -> tree_ok (to_tree hp tid root) ->
@@ -609,14 +595,17 @@ Proof.
   apply walk_dispatchable; assumption.
 Qed.
 
-Theorem walk_lookup_names root id a ty :
+Theorem walk_lookup_names root id a :
   names_ok root = true ->
   forall out b, walk None (map render_port root) [] = WOk out b ->
-  In (id, a) out -> leaf_admits root id ty ->
+  In (id, a) out ->
   apropos (map render_port root) a = AFound id.
 Proof.
-  intros H. destruct (names_ok_sound root H) as [Hwf [_ [_ [Hlok Hld]]]].
-  apply walk_lookup; assumption.
+  intros H out b Hwalk Hin. destruct (names_ok_sound root H) as [Hwf [_ [_ [Hlok Hld]]]].
+  assert (Hin' : In (id, a) (spec_addrs root)).
+  { rewrite (walk_enumerates root Hwf) in Hwalk. inversion Hwalk; subst. exact Hin. }
+  destruct (names_ok_leaf_admits root id a H Hin') as [ty Hty].
+  eapply walk_lookup; eassumption.
 Qed.
 
 (* non-vacuity: siblings sharing first characters, an enumerated sub-tree, a
@@ -642,6 +631,32 @@ Proof.
   split; [|vm_compute; reflexivity].
   eexists. eexists. split; [vm_compute; reflexivity|]. split; [reflexivity|].
   do 45 right. left. reflexivity.
+Qed.
+
+(* ---- digits in literal text ----------------------------------------------------------------- *)
+(* { "osc1a", "v2#3/x7:i", "p10/q/" -> { "b2", "c" } }: accepted (the digit runs of literal
+   text are collapsed in the keys like the enumerations: osc#a, v#/x#, p#/q/);
+   { "a1", "a2" } is rejected (both keys are a#: the predicate does not tell literal digit
+   runs apart), and so is the alias pair { "a#4b", "a01b" } (C18_lookup_digit_alias_refuted) *)
+Definition ex_digits : list sport :=
+  [SPort [NameModel.Lit [111; 115; 99; 49; 97]] [] None None;
+   SPort [NameModel.Lit [118; 50]; NameModel.Enum 3; NameModel.Lit [47; 120; 55]] [58; 105] None None;
+   SPort [NameModel.Lit [112; 49; 48; 47]; NameModel.Lit [113; 47]] [] None
+         (Some [SPort [NameModel.Lit [98; 50]] [] None None; SPort [NameModel.Lit [99]] [] None None])].
+
+Example ex_digits_ok :
+  names_ok ex_digits = true /\
+  names_ok [SPort [NameModel.Lit [97; 49]] [] None None; SPort [NameModel.Lit [97; 50]] [] None None] = false /\
+  (exists out b, walk None (map render_port ex_digits) [] = WOk out b /\ length out = 6%nat /\
+                 In ([1%nat], [47; 118; 50; 50; 47; 120; 55]) out /\
+                 In ([2%nat; 0%nat], [47; 112; 49; 48; 47; 113; 47; 98; 50]) out) /\
+  apropos (map render_port ex_digits) [47; 118; 50; 50; 47; 120; 55] = AFound [1%nat] /\
+  apropos (map render_port ex_digits) [47; 112; 49; 48; 47; 113; 47; 98; 50] = AFound [2%nat; 0%nat].
+Proof.
+  split; [vm_compute; reflexivity|]. split; [vm_compute; reflexivity|].
+  split; [|split; vm_compute; reflexivity].
+  eexists. eexists. split; [vm_compute; reflexivity|]. split; [reflexivity|].
+  split; [do 3 right; left; reflexivity | do 4 right; left; reflexivity].
 Qed.
 
 (* ---- a multi-component sub-tree name under the macro recursion callback -------------------- *)
